@@ -188,7 +188,7 @@ impl Monitor for C05 {
         vec![("miri", 1), ("schedules", tier.pick(24, 600)), ("wide", tier.pick(4, 40)), ("stacks", tier.pick(8, 200))]
     }
     fn rule(&self) -> &'static str {
-        "case = a network with every layer kind (convolution, feedback block of convolution+deconvolution, deconvolution, max-pool, five dense layers, a skip connection across the block, two skip connections sharing their source, a loop connection over a dense layer, dropout on random layers), 24..64 training samples, batch 4..32, 2 epochs with 150..300 or 500..1300 validation inputs (2..21 chunks of 64, not a multiple of 64), followed by validate() and predict_batch() on the same inputs. The identical call is executed in a 1-thread pool without delays (reference) and in dedicated rayon pools of 2, 3, 4, 7, 16, 33 and 64 threads with the delay injector armed (random 0..300 us stalls at the entry of every per-sample forward pass, two delay seeds per pool size), plus once in an 8-thread pool while 16 busy threads starve the machine, plus a repetition of the reference. Every output - per-epoch train/validation loss and accuracy, all final weights, the validate() result, every predict_batch() output in order - must be bit-identical to the reference. Evidence that schedules differed: per training group the sample->worker assignment and the order in which the per-sample tasks started, taken from the event log; distinct = distinct (case, assignment/start-order) schedules observed. stacks: the same protocol on stacks of 3..6 convolutions / deconvolutions with one channel count, kernels 1 or 3 and paddings 0..2 per layer (consecutive layers work on intermediate tensors of equal shape with different margins), max-pool, two dense layers. wide: the same protocol on networks whose dense layers have 4096..8200 inputs or outputs. Miri leg: /verif/miri under -Zmiri-many-seeds (4 seeds quick, 32 thorough): every seed must print the same bit patterns and Miri must report no undefined behaviour or data race."
+        "case = a network with every layer kind (convolution, feedback block of convolution+deconvolution, deconvolution, max-pool, five dense layers, a skip connection across the block, two skip connections sharing their source, a loop connection over a dense layer, dropout on random layers), 24..64 training samples, batch 1..32, 2 epochs with 150..300 or 500..1300 validation inputs (2..21 chunks of 64, not a multiple of 64), followed by validate() and predict_batch() on the same inputs. The identical call is executed in a 1-thread pool without delays (reference) and in dedicated rayon pools of 2, 3, 4, 7, 16, 33 and 64 threads with the delay injector armed (random 0..300 us stalls at the entry of every per-sample forward pass, two delay seeds per pool size), plus once in an 8-thread pool while 16 busy threads starve the machine, plus a repetition of the reference. Every output - per-epoch train/validation loss and accuracy, all final weights, the validate() result, every predict_batch() output in order - must be bit-identical to the reference. Evidence that schedules differed: per training group the sample->worker assignment and the order in which the per-sample tasks started, taken from the event log; distinct = distinct (case, assignment/start-order) schedules observed. stacks: the same protocol on stacks of 3..6 convolutions / deconvolutions with one channel count, kernels 1 or 3 and paddings 0..2 per layer (consecutive layers work on intermediate tensors of equal shape with different margins), max-pool, two dense layers. wide: the same protocol on networks whose dense layers have 4096..8200 inputs or outputs. Miri leg: /verif/miri under -Zmiri-many-seeds (4 seeds quick, 32 thorough): every seed must print the same bit patterns and Miri must report no undefined behaviour or data race."
     }
     fn assumptions(&self) -> Vec<&'static str> {
         vec![
@@ -241,7 +241,7 @@ impl Monitor for C05 {
             _ => 1,
         };
         let n_train = if wide { 12 } else { rng.range(24, 64) };
-        let batch = *rng.pick(&[4usize, 8, 13, 16, 32]);
+        let batch = *rng.pick(&[1usize, 2, 4, 8, 13, 16, 32]);
         let n_eval = if wide { 70 } else if rng.bool() { rng.range(150, 300) } else { rng.range(500, 1300) };
         let n_eval = if n_eval % 64 == 0 { n_eval + 1 } else { n_eval };
         let train = random_data(&mut rng, cfg.input, n_train, outputs, Obj::MSE, false);
